@@ -9,9 +9,12 @@ A case (JSON) is
    "targets": null | int/float/str | [elements],     # elements: int (Integral) or float/str/None (non-integer)
    "container": "list"|"tuple"|"ndarray"|"range"|"npint"|"scalar"|"none",
    "dtype": null | "dense" | "csr" | "dia" | "Dense" | "CSR" | "Dia" | "cls:Dense" | "cls:CSR" | "cls:Dia",
-   "entry": {"via": "gate"|"gate-num-qubits"|"gate-default"|"gate-history"|"pulse"|"pulse-none"|"pulse-history",
+   "entry": {"via": "gate"|"gate-num-qubits"|"gate-default"|"gate-history"|"pulse"|"pulse-none"|"pulse-history"|"pulse-retarget",
              "gate", "controls", "targets", "arg", "odims", "calls": [{"dims": [..]} | {"num_qubits": n} | {"int_dims": n} | {}]}}
                                                       # kind == "entry": Gate.get_qobj / Pulse.get_ideal_qobj on ONE object
+                                                      # pulse calls may carry "set_targets" / "set_odims" (public setters used
+                                                      # before the call); calls the property text refuses (register too small,
+                                                      # mismatched dims) are compared as refusals with the model's expand_dims
 """
 import glob
 import itertools
@@ -340,8 +343,39 @@ def _call_dims(call, qubits):
     return [2] * (max(qubits) + 1)
 
 
+def _pulse_targets_obj(ts, scalar=False, container=None):
+    if scalar and len(ts) == 1:
+        return np.int64(ts[0]) if container == "npint" else int(ts[0])
+    if container == "tuple":
+        return tuple(ts)
+    if container == "npint":
+        return [np.int64(t) for t in ts]
+    if container == "ndarray":
+        return np.array(ts, dtype=int)
+    return list(ts)
+
+
+def pulse_states(case):
+    """per call of a pulse entry case: (call, CURRENT targets, CURRENT operator dims, operator scale).  A call may carry
+    "set_targets": [..] (assigned through the public `targets` setter before the call; "inplace": the list object is
+    mutated instead) and "set_odims": [..] (a new operator assigned through the public `qobj` setter)."""
+    e = case["entry"]
+    ts = [int(t) for t in e["targets"]]
+    odims = list(e["odims"]) if "odims" in e else [case["dims"][t] for t in ts]
+    scale = 1
+    out = []
+    for idx, call in enumerate(entry_calls(case)):
+        if "set_odims" in call:
+            odims = [int(d) for d in call["set_odims"]]
+            scale = idx + 1
+        if "set_targets" in call:
+            ts = [int(t) for t in call["set_targets"]]
+        out.append((call, list(ts), list(odims), scale))
+    return out
+
+
 def run_entry(case):
-    """runs all calls of the case ON ONE OBJECT; returns list of (call, status, out, mat, ts, dims)"""
+    """runs all calls of the case ON ONE OBJECT; returns list of (call, status, out, mat, ts, dims, odims)"""
     import qutip
     e = case["entry"]
     via = e["via"]
@@ -365,9 +399,9 @@ def run_entry(case):
                         out = g.get_qobj(num_qubits=call["num_qubits"])
                     else:
                         out = g.get_qobj()
-                    res.append((call, "ok", out, mat, ts, dims))
+                    res.append((call, "ok", out, mat, ts, dims, [2] * len(ts)))
                 except Exception as ex:
-                    res.append((call, "rejected", type(ex).__name__, mat, ts, dims))
+                    res.append((call, "rejected", type(ex).__name__, mat, ts, dims, [2] * len(ts)))
             return res
         if via.startswith("pulse"):
             from qutip_qip.pulse import Pulse
@@ -377,9 +411,9 @@ def run_entry(case):
                     dims = _call_dims(call, [0])
                     mat = np.zeros((dims[0], dims[0]), dtype=complex)
                     try:
-                        res.append((call, "ok", p.get_ideal_qobj(call.get("int_dims", dims)), mat, [0], dims))
+                        res.append((call, "ok", p.get_ideal_qobj(call.get("int_dims", dims)), mat, [0], dims, [dims[0]]))
                     except Exception as ex:
-                        res.append((call, "rejected", type(ex).__name__, mat, [0], dims))
+                        res.append((call, "rejected", type(ex).__name__, mat, [0], dims, [dims[0]]))
                 return res
             if via == "pulse-nonint":
                 # a pulse whose targets contain a non-integer number: every call must be rejected
@@ -390,20 +424,29 @@ def run_entry(case):
                 for call in entry_calls(case):
                     dims = list(call["dims"])
                     try:
-                        res.append((call, "ok", p.get_ideal_qobj(dims), mat, [], dims))
+                        res.append((call, "ok", p.get_ideal_qobj(dims), mat, [], dims, odims))
                     except Exception as ex:
-                        res.append((call, "rejected", type(ex).__name__, mat, [], dims))
+                        res.append((call, "rejected", type(ex).__name__, mat, [], dims, odims))
                 return res
-            ts = [int(t) for t in e["targets"]]
-            odims = list(e["odims"]) if "odims" in e else [case["dims"][t] for t in ts]
-            mat = coded_matrix(odims, odims)
-            p = Pulse(qutip.Qobj(mat, dims=[odims, odims]), ts if not e.get("scalar") else ts[0])
-            for call in entry_calls(case):
+            states = pulse_states(case)
+            ts, odims, scale = states[0][1], states[0][2], states[0][3]
+            mat = coded_matrix(odims, odims) * scale
+            p = Pulse(qutip.Qobj(mat, dims=[odims, odims]), _pulse_targets_obj(ts, e.get("scalar"), e.get("container")))
+            for idx, (call, ts, odims, scale) in enumerate(states):
+                # the pulse is re-targeted / given a new operator through the PUBLIC setters between the calls
+                if "set_odims" in call:
+                    mat = coded_matrix(odims, odims) * scale
+                    p.qobj = qutip.Qobj(mat, dims=[odims, odims])
+                if "set_targets" in call:
+                    if call.get("inplace") and isinstance(p.targets, list):
+                        p.targets[:] = list(ts)
+                    else:
+                        p.targets = _pulse_targets_obj(ts, call.get("scalar"), call.get("container"))
                 dims = _call_dims(call, ts)
                 try:
-                    res.append((call, "ok", p.get_ideal_qobj(call.get("int_dims", dims)), mat, ts, dims))
+                    res.append((call, "ok", p.get_ideal_qobj(call.get("int_dims", dims)), mat, ts, dims, odims))
                 except Exception as ex:
-                    res.append((call, "rejected", type(ex).__name__, mat, ts, dims))
+                    res.append((call, "rejected", type(ex).__name__, mat, ts, dims, odims))
             return res
     raise Broken("harness:entry", "unknown entry " + str(e))
 
@@ -421,8 +464,26 @@ def check_entry(case, model_maps=None, corr=None):
     Returns the first oracle failure (observed, expected, what, idx, call) or None."""
     first = None
     via = case["entry"]["via"]
-    for idx, (call, status, out, mat, ts, dims) in enumerate(run_entry(case)):
+    for idx, (call, status, out, mat, ts, dims, od) in enumerate(run_entry(case)):
         f = None
+        if via != "pulse-nonint":
+            # the request as an expand_operator call on the CURRENT targets / operator of the object: is it one the
+            # property text (and the model) refuses?  (register too small for the qubits, mismatched dimensions ...)
+            mcase = dict(dims=list(dims), orow=list(od), ocol=list(od), targets=list(ts))
+            if valid_call(mcase) is None:
+                why = must_reject(mcase)
+                if why is not None and status == "ok":
+                    f = (f"call {idx} {call}: accepted, result dims {out.dims}", "rejected",
+                         "malformed call accepted: " + why + " (through " + via + ")")
+                    if first is None:
+                        first = (f[0], f[1], f[2], idx, call)
+                if model_maps is not None and corr is not None:
+                    m_ok = model_maps.get(_model_key(mcase) + "#s")
+                    if m_ok is not None and m_ok != (status == "ok"):
+                        corr.disagree(_entry_input(case, idx, call), "accepted" if status == "ok" else status,
+                                      "Ok" if m_ok else "Error", "entry point: accept/reject differs from the model")
+                    corr.tally("entry-point calls the model refuses")
+                continue
         if via == "pulse-nonint":
             if status == "ok":
                 f = (f"call {idx} {call}: accepted, result dims {out.dims}", "rejected",
@@ -623,6 +684,124 @@ def entry_cases(ctx):
                 d[t] = od
             calls.append(dict(dims=d))
         cases.append(dict(kind="entry", dims=None, entry=dict(via="pulse-history", targets=ts, odims=odims, calls=calls)))
+    # ---- requests the property text refuses, through Gate.get_qobj ON ONE OBJECT between valid requests: register too
+    #      small for the gate's qubits (num_qubits=n, num_qubits=n with dims=[2]*n, dims=[2]*n; every n <= max qubit),
+    #      a target subsystem that is not a qubit.  Refusal vs. success (and the result's dims) is compared with the
+    #      property text and with the model's expand_dims.
+    def gate_entry(name, qs):
+        k = len(qs)
+        e = dict(via="gate-history", gate=name)
+        if k == 1:
+            e.update(targets=[qs[0]], arg=(0.5 if name == "RX" else None))
+        elif name == "SWAP":
+            e.update(targets=list(qs))
+        elif k == 2:
+            e.update(controls=[qs[0]], targets=[qs[1]])
+        elif name == "TOFFOLI":
+            e.update(controls=list(qs[:2]), targets=[qs[2]])
+        else:
+            e.update(controls=[qs[0]], targets=list(qs[1:]))
+        return e
+
+    for k, names in ((1, ONE_Q), (2, TWO_Q), (3, THREE_Q)):
+        for qs in itertools.permutations(range(4), k):
+            if k == 3 and not ctx.thorough and rng.random() < 0.6:
+                continue
+            top = max(qs)
+            for name in (names if (ctx.thorough or k == 1) else [rng.choice(names)]):
+                calls = []
+                for n in range(0 if ctx.thorough else 1, top + 1):
+                    calls += [dict(num_qubits=n), dict(num_qubits=n, dims=[2] * n), dict(dims=[2] * n)]
+                calls.insert(rng.randrange(len(calls) + 1), dict(num_qubits=top + 1))
+                calls.append(dict(num_qubits=top + 2))
+                if calls[:-2]:
+                    e = gate_entry(name, qs)
+                    e["calls"] = calls
+                    cases.append(dict(kind="entry", dims=None, entry=e))
+    for _ in range(ctx.n(60, 400)):
+        k = rng.choice([1, 1, 2, 2, 3])
+        qs = rng.sample(range(4), k)
+        e = gate_entry(rng.choice({1: ONE_Q, 2: TWO_Q, 3: THREE_Q}[k]), qs)
+        calls = []
+        for _j in range(rng.randint(2, 4)):
+            r = rng.random()
+            top = max(qs)
+            if r < 0.3:
+                N = rng.randint(top + 1, 4)
+                calls.append(rng.choice([dict(num_qubits=N), dict(dims=_dims_with(N, qs, rng)[0]),
+                                         dict(num_qubits=N, dims=_dims_with(N, qs, rng)[0])]))
+            elif r < 0.75 and top >= 1:
+                n = rng.randint(1, top)
+                calls.append(rng.choice([dict(num_qubits=n), dict(num_qubits=n), dict(num_qubits=n, dims=[2] * n),
+                                         dict(dims=[rng.choice([2, 2, 3]) for _i in range(n)])]))
+            else:
+                N = rng.randint(top + 1, 4)
+                d = _dims_with(N, qs, rng)[0]
+                d[rng.choice(qs)] = rng.choice([3, 4])
+                calls.append(rng.choice([dict(dims=d), dict(num_qubits=N, dims=d)]))
+        e["calls"] = calls
+        cases.append(dict(kind="entry", dims=None, entry=e))
+    # ---- histories on ONE Pulse whose targets (and operator) are REASSIGNED through the public setters between the
+    #      get_ideal_qobj calls; every call is compared with the embedding on the CURRENT targets of the CURRENT operator.
+    #      Exhaustive: every pair (old targets, new targets) of compatible placements on 3 subsystems over {2,3}
+    for dims in itertools.product([2, 3], repeat=3):
+        for k in (1, 2, 3):
+            tuples = list(itertools.permutations(range(3), k))
+            for t0 in tuples:
+                od = [dims[t] for t in t0]
+                news = [t1 for t1 in tuples if t1 != t0 and [dims[t] for t in t1] == od]
+                if not ctx.thorough and len(news) > 2:
+                    news = rng.sample(news, 2)
+                for t1 in news:
+                    cont = rng.choice(["list", "tuple", "npint", "ndarray"])
+                    cases.append(dict(kind="entry", dims=None, entry=dict(
+                        via="pulse-retarget", targets=list(t0), odims=od, scalar=(k == 1 and rng.random() < 0.5),
+                        calls=[dict(dims=list(dims)),
+                               dict(dims=list(dims), set_targets=list(t1), container=cont,
+                                    scalar=(k == 1 and rng.random() < 0.5)),
+                               dict(dims=list(dims), set_targets=list(t0))])))
+    for _ in range(ctx.n(100, 600)):
+        top = rng.choice([3, 3, 3, 4])      # mostly <= 3 subsystems: the model tables stay small
+        k = rng.randint(1, 3)
+        ts = rng.sample(range(top), k)
+        odims = [rng.choice([2, 3, 4]) for _i in ts]
+        e = dict(via="pulse-retarget", targets=list(ts), odims=list(odims), scalar=(k == 1 and rng.random() < 0.4),
+                 container=rng.choice(["list", "tuple", "npint"]))
+        calls = []
+        for j in range(rng.randint(2, 4)):
+            call = {}
+            old_ts, old_od = list(ts), list(odims)
+            r = rng.random()
+            if j and r < 0.25:            # new operator (possibly on another number of subsystems) AND new targets
+                k = rng.randint(1, 3)
+                odims = [rng.choice([2, 3, 4]) for _i in range(k)]
+                ts = rng.sample(range(top), k)
+                call.update(set_odims=list(odims), set_targets=list(ts))
+            elif j and r < 0.35:          # new operator of the same shape on the same targets
+                odims = [rng.choice([2, 3, 4]) for _i in range(k)]
+                call.update(set_odims=list(odims))
+            elif j and r < 0.9:           # new targets: other positions / other order
+                ts = rng.sample(range(top), k)
+                call.update(set_targets=list(ts))
+                if rng.random() < 0.15:
+                    call["inplace"] = True
+            if "set_targets" in call:
+                call["container"] = rng.choice(["list", "tuple", "npint", "ndarray"])
+                call["scalar"] = bool(k == 1 and rng.random() < 0.4)
+            N = rng.randint(max(ts + (old_ts if rng.random() < 0.7 else [])) + 1, top)
+            d = [rng.choice([2, 3, 4]) for _i in range(N)]
+            if j and rng.random() < 0.2 and len(old_ts) == len(set(old_ts)):
+                # dims that fit the PREVIOUS targets / operator; whether they fit the current ones decides
+                for t, x in zip(old_ts, old_od):
+                    if t < N:
+                        d[t] = x
+            else:
+                for t, x in zip(ts, odims):
+                    d[t] = x
+            call["dims"] = d
+            calls.append(call)
+        e["calls"] = calls
+        cases.append(dict(kind="entry", dims=None, entry=e))
     return cases
 
 
@@ -639,13 +818,11 @@ def entry_model_cases(case):
         return out
     if e["via"].startswith("gate"):
         ts = [int(q) for q in (e.get("controls") or [])] + [int(q) for q in e["targets"]]
-    else:
-        ts = [int(t) for t in e["targets"]]
-    for call in entry_calls(case):
-        dims = _call_dims(call, ts)
-        if all(0 <= t < len(dims) for t in ts):
-            od = [dims[t] for t in ts]
-            out.append(dict(dims=dims, orow=od, ocol=list(od), targets=list(ts)))
+        for call in entry_calls(case):
+            out.append(dict(dims=_call_dims(call, ts), orow=[2] * len(ts), ocol=[2] * len(ts), targets=list(ts)))
+        return out
+    for call, ts, od, _scale in pulse_states(case):
+        out.append(dict(dims=_call_dims(call, ts), orow=list(od), ocol=list(od), targets=list(ts)))
     return out
 
 
@@ -1010,9 +1187,14 @@ def correspond(ctx):
             plans.append((c, key + "#s", "status", None))
     # the expand_operator calls underlying the entry-point cases (same tables, shared with the stream above)
     entry_keys = {}
+    entry_status = set()
     for c in entries:
         for mc in entry_model_cases(c):
-            if _prod(mc["dims"]) <= TABLE_MAX_D:
+            if valid_call(mc) is None:
+                k2 = _model_key(mc) + "#s"
+                jobs.setdefault(k2, ("status", mc))
+                entry_status.add(k2)
+            elif _prod(mc["dims"]) <= TABLE_MAX_D:
                 k2 = _model_key(mc)
                 jobs.setdefault(k2, ("table", mc))
                 entry_keys.setdefault(k2, mc)
@@ -1178,6 +1360,9 @@ def correspond(ctx):
 
     # ---- observable entry points: numpy oracle and the model's entry map, every call of every history
     model_maps = {}
+    for k2 in entry_status:
+        mdims = model[k2][0]
+        model_maps[k2] = bool(isinstance(mdims, tuple) and mdims[0] == "Ok")
     for k2, mc in entry_keys.items():
         m = model.get(k2)
         if m is None or not isinstance(m, tuple) or len(m) != 4:
